@@ -74,8 +74,10 @@ def run(ctx):
             cls = CLASSES[variant]
             for bs, ks in itertools.product(cls, cls):
                 lowest = (bs == cls[0] and ks == cls[0])
-                max_order = (2 if quick else 3) if lowest else \
-                    (1 if quick else 2)
+                # cross-class overlaps through second order also in the quick
+                # tier: this is where the projection prefactor defect
+                # (fixed in be45c67) showed
+                max_order = (2 if quick else 3) if lowest else 2
                 if bs != cls[0] and ks != cls[0]:
                     max_order = 0 if quick else 1
                 for order in range(max_order + 1):
